@@ -507,6 +507,17 @@ func observeOpaque(sc *Scenario, wl []common.Address) {
 		if len(o.receipts) == 0 {
 			continue
 		}
+		// the prefix must have been executed in the order it has inside the full block (with a Less
+		// that is no strict weak order, sorting a sub-list can come out differently): otherwise
+		// there is no observation and the driver answers `unmodelled`
+		same := len(o.txs) == k+1
+		for j := 0; same && j <= k; j++ {
+			same = o.txs[j].Hash == full.txs[j].Hash
+		}
+		if !same {
+			observedBody = map[string]string{}
+			return
+		}
 		rc := o.receipts[len(o.receipts)-1]
 		ev := 0
 		for _, h := range o.evicted {
